@@ -36,48 +36,65 @@ Definition decide (T : tables) (s : N) (t : positive) : option Z :=
 
 Definition top (st : list N) : N := match st with s :: _ => s | [] => 0 end.
 
-(* [run fuel silent T stack toks acc]: toks ends with the $end token *)
-Fixpoint run (fuel : nat) (silent : bool) (T : tables) (st : list N) (toks : list token) (acc : list event)
-  : res (list event) :=
+(* [feed fuel T st t acc]: in stack [st] with look-ahead [t], reduce until the token can be shifted,
+   the input is accepted, or no action exists.  fuel bounds the reductions done for ONE token. *)
+Inductive fed :=
+| FShift (st : list N) (acc : list event)
+| FAccept (acc : list event)
+| FErr (acc : list event).
+
+Fixpoint feed (fuel : nat) (T : tables) (st : list N) (t : positive) (acc : list event) : res fed :=
   match fuel with
   | O => OutOfFuel
   | S f =>
-    match toks with
-    | [] => Unsupported "LR: ran past $end"
-    | (t, v) :: rest =>
-      match decide T (top st) t with
-      | Some a =>
-        if (0 <? a)%Z then run f silent T (Z.to_N a :: st) rest (EShift t v :: acc)
-        else if (a <? 0)%Z then
-          let p := Z.to_N (- a) in
-          match t_prod T p with
-          | None => Unsupported "LR: unknown production"
-          | Some (lhs, n) =>
-            let st' := skipn n st in
-            match lhs with
-            | N0 => Unsupported "LR: reduce by S'"
-            | Npos l =>
-              match t_goto T (top st') l with
-              | Some g => run f silent T (Z.to_N g :: st') toks (EReduce p :: acc)
-              | None => Unsupported "LR: missing goto"
-              end
+    match decide T (top st) t with
+    | Some a =>
+      if (0 <? a)%Z then Ok (FShift (Z.to_N a :: st) acc)
+      else if (a <? 0)%Z then
+        let p := Z.to_N (- a) in
+        match t_prod T p with
+        | None => Unsupported "LR: unknown production"
+        | Some (lhs, n) =>
+          let st' := skipn n st in
+          match lhs with
+          | N0 => Unsupported "LR: reduce by S'"
+          | Npos l =>
+            match t_goto T (top st') l with
+            | Some g => feed f T (Z.to_N g :: st') t (EReduce p :: acc)
+            | None => Unsupported "LR: missing goto"
             end
           end
-        else Ok (rev (EAccept :: acc))
-      | None =>
-        if silent then
-          if Pos.eqb t (t_end T) then Ok (rev (EErrorEnd :: acc))
-          else run f silent T [0] rest (EError t :: acc)
-        else Raise DDLParserError
-      end
+        end
+      else Ok (FAccept acc)
+    | None => Ok (FErr acc)
     end
   end.
 
-Definition lr_fuel (toks : list token) : nat := 60 * (List.length toks + 2) + 400.
+(* reductions allowed between two shifts *)
+Definition feed_fuel : nat := 400.
+
+(* [run silent T stack toks acc]: toks ends with the $end token *)
+Fixpoint run (silent : bool) (T : tables) (st : list N) (toks : list token) (acc : list event)
+  : res (list event) :=
+  match toks with
+  | [] => Unsupported "LR: ran past $end"
+  | (t, v) :: rest =>
+    match feed feed_fuel T st t acc with
+    | Ok (FShift st' acc') => run silent T st' rest (EShift t v :: acc')
+    | Ok (FAccept acc') => Ok (rev (EAccept :: acc'))
+    | Ok (FErr acc') =>
+        if silent then
+          if Pos.eqb t (t_end T) then Ok (rev (EErrorEnd :: acc'))
+          else run silent T [0] rest (EError t :: acc')
+        else Raise DDLParserError
+    | Raise e => Raise e
+    | Unsupported w => Unsupported w
+    | OutOfFuel => OutOfFuel
+    end
+  end.
 
 Definition lr_trace (silent : bool) (T : tables) (toks : list token) : res (list event) :=
-  let toks' := (toks ++ [(t_end T, EmptyString)])%list in
-  run (lr_fuel toks') silent T [0] toks' [].
+  run silent T [0] (toks ++ [(t_end T, EmptyString)])%list [].
 
 (* ---------- table construction from generated rows ------------------------------------------ *)
 Definition row_map (r : list (positive * Z)) : PM.t Z :=
